@@ -2,14 +2,19 @@
 C01 — Construction yields exactly the specified probability table, or is rejected.
 """
 import math
+import os
+import pickle
+import traceback
+import warnings
 from fractions import Fraction
 
 import numpy as np
 
 import core
+import covtrace
 import gen
 from canon import exc_enum
-from driver import q
+from driver import q, DriverError
 from env import import_dit
 
 MALFORMED = ['unnormalised', 'out-of-range', 'length-mismatch', 'ragged', 'outsider', 'invalid-base',
@@ -23,26 +28,121 @@ class C01(object):
             "sequence / dict / ndarray / ScalarDistribution (sequence, dict, pmf-only), sample space none / list in "
             "arbitrary order / SampleSpace / CartesianProduct, 6 bases, sparse x trim; plus a malformed stream with one "
             "fault each (%s). Non-trivial = at least two stored outcomes and (an explicit zero or a custom space or a "
-            "log base or a rejection)") % ', '.join(MALFORMED)
+            "log base or a rejection). Sample-space objects (SampleSpace / CartesianProduct, also "
+            "CartesianProduct.from_outcomes) come with members / alphabets in arbitrary order and with a history of "
+            "public use before the constructor receives them (index, membership, iteration, len, sort, an earlier "
+            "construction with or without sorting); a case may be followed by a second construction on the very same "
+            "sample-space argument with the specification reversed; a case may carry a process history: public calls "
+            "on unrelated distributions (base conversions in place / by copy / from_distribution, make_dense, "
+            "make_sparse, item assignment, validate, printing) executed before the construction or between the "
+            "construction and its observation (such cases run in a forked child so that the history is exactly what "
+            "the case says)") % ', '.join(MALFORMED)
     tolerances = {'read-back of specified values': 'bit-exact (the float handed to the constructor)',
                   'model values': 'exact for linear bases; log bases compared through b**v with rtol 1e-9'}
     exhaustive = {}
 
     # ------------------------------------------------------------------ generation
     def gen(self, rng, tier):
-        n_valid, n_bad = (260, 70) if tier == 'quick' else (72000, 15000)
+        n_valid, n_bad, n_obj = (260, 70, 300) if tier == 'quick' else (72000, 15000, 24000)
         if tier == 'thorough':
             for c in self.exhaustive_small():
                 yield c
         for _ in range(n_valid):
             c = gen.rand_dist_case(rng, nmin=1, nmax=4)
             self.decorate(c, rng)
+            self.add_history(c, rng)
             yield c
         for _ in range(n_bad):
             c = gen.rand_dist_case(rng, nmin=1, nmax=3)
             self.decorate(c, rng)
             self.break_it(c, rng)
+            self.add_history(c, rng)
             yield c
+        # a stream in which the sample space is always an *object* (they are what the constructor mutates: it sorts
+        # them in place), in arbitrary order and with a history of use
+        for _ in range(n_obj):
+            c = gen.rand_dist_case(rng, nmin=1, nmax=4)
+            self.object_space(c, rng)
+            self.decorate(c, rng)
+            self.add_history(c, rng, p_hist=0.8)
+            yield c
+
+    # ---- sample-space objects in arbitrary order
+    @staticmethod
+    def first_appearance(outs):
+        """Per-position symbols of `outs` in order of first appearance (what CartesianProduct.from_outcomes is given)."""
+        n = len(outs[0])
+        alph = [[] for _ in range(n)]
+        for o in outs:
+            for i, s in enumerate(o):
+                if s not in alph[i]:
+                    alph[i].append(s)
+        return alph
+
+    def object_space(self, c, rng):
+        """Force the sample space of a freshly generated valid case to be an object: a CartesianProduct whose alphabets
+        are in arbitrary order (built directly or by from_outcomes), or a SampleSpace with shuffled members."""
+        kind = rng.choice(['cart', 'cart', 'cart-fo', 'ss'])
+        c['spacevia'] = None
+        if kind == 'cart':
+            big = [sorted(set(a) | set(rng.sample(range(6), rng.randint(0, 1)))) for a in c['alphabets']]
+            if rng.random() < 0.8:
+                for a in big:
+                    rng.shuffle(a)
+            c['space'] = ['cart', big]
+            c['spacekind'] = 'cart'
+        elif kind == 'cart-fo':
+            c['space'] = ['cart', self.first_appearance(c['outs'])]
+            c['spacekind'] = 'cart'
+            c['spacevia'] = 'from_outcomes'
+        else:
+            full = [[]]
+            for a in c['alphabets']:
+                full = [o + [s] for o in full for s in a]
+            extra = [o for o in full if o not in c['outs']]
+            rng.shuffle(extra)
+            members = c['outs'] + extra[:rng.randint(0, len(extra))]
+            rng.shuffle(members)
+            c['space'] = ['ss', members]
+            c['spacekind'] = 'ss'
+
+    HIST_OPS = ['index', 'index', 'contains', 'iter', 'len', 'sort', 'build', 'build-nosort']
+    CONV_OPS = ['set_base', 'copy', 'from_distribution']
+    PLAIN_OPS = ['make_dense', 'make_sparse', 'setitem', 'validate', 'str']
+
+    def add_history(self, c, rng, p_hist=0.5, p_prelude=0.3):
+        """History of the sample-space object, a second construction on the same argument, and a process history."""
+        c.setdefault('spacevia', None)
+        c['history'], c['rebuild'], c['prelude'], c['prelude_when'] = [], False, [], 'before'
+        joint = not c['form'].startswith('scalar')
+        sp = c.get('space')
+        if joint and sp is not None and sp[0] == 'cart' and c['form'] in ('seq', 'dict') and rng.random() < 0.3 \
+                and c.get('bad') != 'outsider':
+            # the generic stream lists Cartesian alphabets in increasing order: any order is a valid argument
+            sp = ['cart', [list(a) for a in sp[1]]]
+            for a in sp[1]:
+                rng.shuffle(a)
+            c['space'] = sp
+        if joint and sp is not None and sp[0] in ('ss', 'cart') and c['form'] in ('seq', 'dict') and rng.random() < p_hist:
+            for _ in range(rng.randint(1, 3)):
+                op = rng.choice(self.HIST_OPS)
+                if op in ('index', 'contains'):
+                    c['history'].append([op, rng.randrange(64)])
+                elif op in ('build', 'build-nosort'):
+                    c['history'].append([op, rng.random() < 0.6])
+                else:
+                    c['history'].append([op])
+        if joint and c['form'] in ('seq', 'dict') and not c.get('bad') and rng.random() < 0.3:
+            c['rebuild'] = True
+        if rng.random() < p_prelude:
+            for _ in range(rng.randint(1, 3)):
+                frm = c['base'] if rng.random() < 0.5 else rng.choice(gen.BASES)
+                step = {'cls': rng.choice(['joint', 'scalar']), 'base': frm, 'table': rng.randrange(3),
+                        'op': rng.choice(self.CONV_OPS) if rng.random() < 0.6 else rng.choice(self.PLAIN_OPS)}
+                if step['op'] in self.CONV_OPS:
+                    step['to'] = rng.choice(gen.BASES)
+                c['prelude'].append(step)
+            c['prelude_when'] = rng.choice(['before', 'before', 'between'])
 
     def decorate(self, c, rng):
         # near-null values and explicit zeros
@@ -157,6 +257,34 @@ class C01(object):
                                            'form': 'seq', 'bad': None}
 
     def shrink(self, case):
+        for c in self.shrink0(case):
+            sp = c.get('space')
+            if c.get('spacevia') == 'from_outcomes' and sp is not None and sp[0] == 'cart' and c['outs']:
+                c['space'] = ['cart', self.first_appearance(c['outs'])]    # that space is a function of the outcomes
+            yield c
+
+    def shrink0(self, case):
+        # the histories first: a failing input that does not need them should not carry them
+        for key in ('prelude', 'history'):
+            steps = case.get(key) or []
+            for i in range(len(steps)):
+                c = dict(case)
+                c[key] = steps[:i] + steps[i + 1:]
+                yield c
+        if case.get('rebuild'):
+            c = dict(case)
+            c['rebuild'] = False
+            yield c
+        if case.get('prelude') and case.get('prelude_when') == 'between':
+            c = dict(case)
+            c['prelude_when'] = 'before'
+            yield c
+        sp = case.get('space')
+        if sp is not None and sp[0] == 'cart' and any(list(a) != sorted(a) for a in sp[1]):
+            c = dict(case)
+            c['space'] = ['cart', [sorted(a) for a in sp[1]]]
+            c['spacevia'] = None
+            yield c
         outs, pmf = case['outs'], [Fraction(p) for p in case['pmf']]
         if len(outs) > 1 and not case.get('bad') and case['form'] not in ('ndarray', 'scalar-pmf'):   # those forms list every cell
             for i in range(len(outs)):
@@ -175,7 +303,109 @@ class C01(object):
                 yield c
 
     # ------------------------------------------------------------------ execution
-    def construct_py(self, case):
+    def space_obj(self, case):
+        """The sample_space argument (an object for 'ss' / 'cart', a list, or None)."""
+        dit = import_dit()
+        sp = case.get('space')
+        if sp is not None and sp[0] == 'cart' and case.get('spacevia') == 'from_outcomes' and not case.get('bad'):
+            return dit.samplespace.CartesianProduct.from_outcomes([gen.to_py(o, case['klass']) for o in case['outs']])
+        return gen.space_arg(case)
+
+    def py_spec(self, case):
+        klass = case['klass']
+        outs = [gen.to_py(o, klass) for o in case['outs']]
+        vals = [gen.log_of(Fraction(p), case['base']) for p in case['pmf']]
+        return outs, vals
+
+    def apply_history(self, case, ss, dit):
+        """Public use of the sample-space object before the constructor under test receives it.  Returns
+        (oracle failure, other problem)."""
+        hist = case.get('history') or []
+        if not hist or not isinstance(ss, dit.samplespace.SampleSpace):
+            return None, None
+        outs, vals = self.py_spec(case)
+        valid = not case.get('bad')
+        for step in hist:
+            op = step[0]
+            try:
+                if op == 'index' and outs:
+                    try:
+                        ss.index(outs[step[1] % len(outs)])
+                    except ValueError:
+                        pass        # documented for non-members (malformed stream)
+                elif op == 'contains' and outs:
+                    outs[step[1] % len(outs)] in ss
+                elif op == 'iter':
+                    list(ss)
+                elif op == 'len':
+                    len(ss)
+                elif op == 'sort':
+                    ss.sort()
+                elif op in ('build', 'build-nosort'):
+                    try:
+                        dit.Distribution(outs, vals, sample_space=ss, base=case['base'], sort=(op == 'build'),
+                                         sparse=bool(step[1]), trim=case['trim'])
+                    except Exception as e:  # noqa
+                        # sort=False is outside the statement; malformed specifications are judged on the main call
+                        if valid and op == 'build':
+                            return ('an earlier construction from the same valid specification on the same sample-space '
+                                    'object was rejected with %s: %s' % (exc_enum(e), str(e)[:120])), None
+            except Exception as e:  # noqa
+                if valid:
+                    return None, 'history step %s on the sample-space object raised %s: %s' % (step, type(e).__name__,
+                                                                                            str(e)[:120])
+        return None, None
+
+    PRELUDE_TABLES = [[Fraction(1, 2), Fraction(1, 2)], [Fraction(1, 4), Fraction(3, 4)],
+                      [Fraction(1, 2), Fraction(1, 4), Fraction(1, 4)]]
+
+    def play_prelude(self, steps, dit):
+        """Public calls on unrelated distributions.  Every step first builds its own distribution from a valid
+        specification (so the statement applies to it as well) and then uses it.  Returns (oracle failure, other problem)."""
+        for i, st in enumerate(steps):
+            probs = self.PRELUDE_TABLES[st.get('table', 0) % len(self.PRELUDE_TABLES)]
+            base = st['base']
+            vals = [gen.log_of(p, base) for p in probs]
+            if st['cls'] == 'scalar':
+                outs = list(range(len(probs)))
+                ctor = dit.ScalarDistribution
+            else:
+                outs = ['ab', 'ba', 'bb'][:len(probs)]
+                ctor = dit.Distribution
+            what = 'process-history step %d (%s(%r, %r, base=%r))' % (i, ctor.__name__, outs, vals, base)
+            try:
+                o = ctor(outs, vals, base=base)
+            except Exception as e:  # noqa
+                return 'a valid specification was rejected with %s: %s [%s]' % (exc_enum(e), str(e)[:120], what), None
+            if o.get_base() != base:
+                return 'get_base() is %r, specified %r [%s]' % (o.get_base(), base, what), None
+            for x, v in zip(outs, vals):
+                if not (o[x] == v):
+                    return 'lookup of specified outcome %r returns %r, specified %r [%s]' % (x, o[x], v, what), None
+            try:
+                op = st['op']
+                if op == 'set_base':
+                    o.set_base(st['to'])
+                elif op == 'copy':
+                    o.copy(base=st['to'])
+                elif op == 'from_distribution':
+                    ctor.from_distribution(o, base=st['to'])
+                elif op == 'make_dense':
+                    o.make_dense()
+                elif op == 'make_sparse':
+                    o.make_sparse()
+                elif op == 'setitem':
+                    o[outs[0]] = o[outs[0]]
+                elif op == 'validate':
+                    o.validate()
+                elif op == 'str':
+                    str(o)
+                    o.to_string()
+            except Exception as e:  # noqa
+                return None, '%s: %s raised %s: %s' % (what, st['op'], type(e).__name__, str(e)[:120])
+        return None, None
+
+    def construct_py(self, case, space=None):
         dit = import_dit()
         klass = case['klass']
         form = case['form']
@@ -204,7 +434,7 @@ class C01(object):
             else:
                 d = dit.ScalarDistribution(souts, vals, **kw)
             return d, vals
-        kw['sample_space'] = gen.space_arg(case)
+        kw['sample_space'] = space
         if form == 'ndarray':
             shape = [len(a) for a in case['alphabets']]
             arr = np.array(vals, dtype=float).reshape(shape)
@@ -229,21 +459,95 @@ class C01(object):
                 'outcome_length': 1}
 
     def run(self, case, drv):
+        """Cases with a process history run in a forked child: whatever the history does to the process (that is the point
+        of it) then stays confined to the case, so a failing input is self-contained and replays in a fresh process."""
+        if case.get('prelude') and hasattr(os, 'fork'):
+            return self.run_forked(case, drv)
+        return self.run_here(case, drv)
+
+    def run_forked(self, case, drv):
+        rfd, wfd = os.pipe()
+        with warnings.catch_warnings():
+            warnings.simplefilter('ignore')
+            pid = os.fork()
+        if pid == 0:
+            code = 0
+            try:
+                os.close(rfd)
+                seen = set(covtrace.snapshot())
+                try:
+                    r = self.run_here(case, drv)
+                    payload = ('ok', r.__dict__, [h for h in covtrace.snapshot() if h not in seen])
+                except DriverError as e:
+                    payload = ('driver', str(e))
+                except BaseException as e:  # noqa
+                    payload = ('exc', type(e).__name__, str(e), traceback.format_exc()[-1500:])
+                with os.fdopen(wfd, 'wb') as f:
+                    f.write(pickle.dumps(payload))
+            except BaseException:  # noqa
+                code = 3
+            finally:
+                os._exit(code)
+        os.close(wfd)
+        with os.fdopen(rfd, 'rb') as f:
+            data = f.read()
+        os.waitpid(pid, 0)
+        if not data:
+            raise RuntimeError('the forked case runner returned nothing')
+        payload = pickle.loads(data)
+        if payload[0] == 'ok':
+            r = core.Result()
+            r.__dict__.update(payload[1])
+            covtrace.merge(payload[2])
+            return r
+        if payload[0] == 'driver':
+            raise DriverError(payload[1])
+        if payload[1] == 'UnreadableOutcome':
+            raise gen.UnreadableOutcome(payload[2])
+        raise RuntimeError('%s: %s\n%s' % (payload[1], payload[2], payload[3]))
+
+    def run_here(self, case, drv):
         dit = import_dit()
         r = core.Result()
         r.site = 'Distribution.__init__' if not case['form'].startswith('scalar') else 'ScalarDistribution.__init__'
         klass = case['klass']
         bad = case.get('bad')
         r.features = gen.case_features(case) + ['form=%s' % case['form'], 'bad=%s' % bad]
+        sp0 = case.get('space')
+        prelude = case.get('prelude') or []
+        when = case.get('prelude_when', 'before')
+        hist = case.get('history') or []
+        r.features += ['history=%s' % bool(hist), 'rebuild=%s' % bool(case.get('rebuild')),
+                       'process-history=%s' % (when if prelude else 'none')]
+        r.features += ['history:%s' % op for op in sorted(set(h[0] for h in hist))]
+        r.features += ['process-history:%s' % op for op in sorted(set(st['op'] for st in prelude))]
+        if sp0 is not None and sp0[0] == 'cart':
+            r.features.append('cart-alphabets=%s%s' % ('sorted' if all(list(a) == sorted(a) for a in sp0[1]) else 'unsorted',
+                                                      '/from_outcomes' if case.get('spacevia') else ''))
+        if prelude and any(st['op'] in self.CONV_OPS and st['base'] != 'linear' and st['to'] not in ('linear', st['base'])
+                           for st in prelude):
+            r.features.append('process-history:log->log')
         scalar = case['form'].startswith('scalar')
         base = case['base']
 
         # ---------------- implementation
-        d, err, vals = None, None, None
+        d, err, vals, ss = None, None, None, None
+        pre_fail, pre_other = self.play_prelude(prelude, dit) if when == 'before' else (None, None)
+        if pre_fail or pre_other:
+            r.oracle_fail, r.mismatch, r.site = pre_fail, pre_other, 'C01.process-history'
+            r.detail = {'impl': pre_fail or pre_other}
+            return r
+        hist_fail, hist_other = None, None
         try:
-            d, vals = self.construct_py(case)
+            ss = self.space_obj(case) if not case['form'].startswith('scalar') else None
+            hist_fail, hist_other = self.apply_history(case, ss, dit)
+            d, vals = self.construct_py(case, ss)
         except Exception as e:  # noqa
             err = e
+        if hist_fail or hist_other:
+            r.oracle_fail, r.mismatch = hist_fail, hist_other
+            r.detail = {'impl': hist_fail or hist_other}
+            return r
         r.nontrivial = len(case['outs']) >= 2 and (bad is not None or base != 'linear' or case['space'] is not None
                                                     or any(Fraction(p) == 0 for p in case['pmf']))
 
@@ -302,6 +606,13 @@ class C01(object):
             r.oracle_fail = 'a malformed specification (%s) was accepted' % bad
             r.detail = {'impl': 'accepted'}
             return r
+        if when == 'between':
+            # unrelated calls between the construction and its observation
+            pre_fail, pre_other = self.play_prelude(prelude, dit)
+            if pre_fail or pre_other:
+                r.oracle_fail, r.mismatch, r.site = pre_fail, pre_other, 'C01.process-history'
+                r.detail = {'impl': pre_fail or pre_other}
+                return r
         py = self.obs_scalar(d, klass) if scalar else gen.obs_py(d, klass)
         exact = base == 'linear'
         if mo[0] != 'ok':
@@ -313,13 +624,43 @@ class C01(object):
         r.detail = {'impl': py, 'model': mo[1] if mo[0] == 'ok' else mo}
 
         # ---------------- oracle: the statement on the real object
+        fails = self.judge(d, case, vals, py, dit)
+
+        # ---------------- a second construction on the very same sample-space argument, specification reversed
+        if not fails and case.get('rebuild') and not scalar and case['form'] in ('seq', 'dict'):
+            outs2, vals2 = self.py_spec(case)
+            outs2, vals2 = outs2[::-1], vals2[::-1]
+            d2 = None
+            try:
+                d2 = dit.Distribution(outs2, vals2, sample_space=ss, base=base, sparse=case['sparse'], trim=case['trim'])
+            except Exception as e:  # noqa
+                fails = ('second construction on the same sample-space argument: a valid specification was rejected '
+                         'with %s: %s' % (exc_enum(e), str(e)[:120]))
+            if d2 is not None:
+                py2 = gen.obs_py(d2, klass)
+                if mo[0] == 'ok' and not r.mismatch:
+                    diff = gen.compare_obs(py2, gen.obs_model(mo[1]), exact=exact)
+                    if diff:
+                        r.mismatch = 'second construction on the same sample-space argument: ' + diff
+                f2 = self.judge(d2, case, vals, py2, dit)
+                if f2:
+                    fails = 'second construction on the same sample-space argument: ' + f2
+                    r.detail['impl_second'] = py2
+        r.oracle_fail = fails
+        return r
+
+    def judge(self, d, case, vals, py, dit):
+        """The statement on the real object `d` (observed as `py`); returns the violated clause or None."""
+        klass = case['klass']
+        scalar = case['form'].startswith('scalar')
+        base = case['base']
         fails = None
         spec = {}
         for o, v, p in zip(case['outs'], vals, case['pmf']):
             spec[tuple(o)] = (v, Fraction(p))
         space = [tuple(o) for o in py['space']]
         look = dict(zip(space, py['lookups']))
-        zero = d.ops.zero
+        zero = gen.log_of(0, base)     # the null probability of the specified base, from the definition
         for o, (v, p) in spec.items():
             got = look.get(o)
             if got is None:
@@ -399,8 +740,7 @@ class C01(object):
                     fails = 'alphabets %s are not the symbols of the sample space %s' % (py['alphabets'], symbols)
             elif py['outcome_length'] != (1 if scalar else n):
                 fails = 'outcome_length() = %s' % py['outcome_length']
-        r.oracle_fail = fails
-        return r
+        return fails
 
 
 PROP = C01()
